@@ -17,7 +17,7 @@ int main() {
         for (unsigned k = 0; k < cand; ++k) { PeerContact c{}; c.id[0] = static_cast<std::uint8_t>(0x80 + k); c.address = "10.0.0." + std::to_string(k) + ":1"; c.expires_at = std::chrono::steady_clock::now() + std::chrono::hours(1); table.register_peer(c); }
         { PeerContact me{}; me.id = self; me.address = "127.0.0.1:1"; me.expires_at = std::chrono::steady_clock::now() + std::chrono::hours(1); table.register_peer(me); }
         protocol::Manifest m{}; m.threshold = static_cast<std::uint8_t>(thr); m.total_shares = static_cast<std::uint8_t>(shards);
-        for (unsigned k = 0; k < shards; ++k) { protocol::KeyShard s{}; s.index = static_cast<std::uint8_t>(k + 1); m.shards.push_back(s); }
+        for (unsigned k = 0; k < shards; ++k) { protocol::KeyShard s{}; s.index = static_cast<std::uint8_t>(3 * (k + 1)); m.shards.push_back(s); }   // distinct, deliberately non-contiguous labels
         SwarmCoordinator sc(config);
         ChunkId chunk{}; chunk[0] = 0x22;
         const auto plan = sc.compute_plan(chunk, m, table, self, {});
@@ -33,7 +33,7 @@ int main() {
             for (auto i : a.shard_indices) handed.insert(i);
         }
         if (!plan.assignments.empty()) {
-            for (unsigned k = 1; k <= shards; ++k) if (handed.count(static_cast<std::uint8_t>(k)) != 1) return fail("a shard is not handed to exactly one provider");
+            for (unsigned k = 1; k <= shards; ++k) if (handed.count(static_cast<std::uint8_t>(3 * k)) != 1) return fail("a shard is not handed to exactly one provider");
             if (handed.size() != shards) return fail("more shard entries than shards");
             if (lo < 1) return fail("a provider receives no shard");
             if (hi - lo > 1) return fail("shard counts differ by more than one");
